@@ -13,6 +13,7 @@ use qvlib::{catch, hex, json, panic_key, qd, unhex, Ctx, Local, Value};
 
 use crate::gen::Ct;
 use crate::refmodel as rm;
+use crate::watch;
 
 const fn ct(class: u16, typ: u16, label: &'static str) -> Ct {
     Ct { class, typ, label }
@@ -220,6 +221,7 @@ fn shape(ct: Ct, a: &[u8]) -> &'static str {
 /// Returns the implementation's answer for (a, b).
 fn check_pair(l: &mut Local, ct: Ct, a: &[u8], b: &[u8]) -> Option<bool> {
     l.tick();
+    watch::note("pair", a, b, [ct.class as u64, ct.typ as u64, 0, 0]);
     let ab = match q_equals(ct, a, b) {
         Ok(v) => v,
         Err(p) => {
@@ -313,6 +315,14 @@ fn set_case(ct: Ct, seq: &[&[u8]]) -> Value {
 /// One insertion history, through insert() and through from_iter().
 fn check_history(l: &mut Local, ct: Ct, seq: &[&[u8]]) -> Option<usize> {
     l.tick();
+    {
+        let mut flat = Vec::new();
+        for r in seq {
+            flat.extend_from_slice(&(r.len() as u16).to_be_bytes());
+            flat.extend_from_slice(r);
+        }
+        watch::note("set", &flat, &[], [ct.class as u64, ct.typ as u64, 0, 0]);
+    }
     let (class, typ) = (Class::from(ct.class), Type::from(ct.typ));
     // The reference set uses the reference equality; skip histories where it
     // is open (TSIG case variants).
@@ -420,7 +430,24 @@ enum Item {
     Whole(Ct, usize),
 }
 
+fn hang_case(n: &watch::Noted) -> (String, Value) {
+    let (class, typ) = (n.nums[0], n.nums[1]);
+    if n.kind == "pair" {
+        ("equals:does-not-terminate".into(), json!({"kind": "pair", "class": class, "type": typ, "a": hex(&n.a), "b": hex(&n.b)}))
+    } else {
+        let mut seq = Vec::new();
+        let mut i = 0;
+        while i + 2 <= n.a.len() {
+            let len = u16::from_be_bytes([n.a[i], n.a[i + 1]]) as usize;
+            seq.push(hex(&n.a[i + 2..i + 2 + len]));
+            i += 2 + len;
+        }
+        ("set:does-not-terminate".into(), json!({"kind": "set", "class": class, "type": typ, "sequence": seq}))
+    }
+}
+
 pub fn run(ctx: Ctx) -> ! {
+    watch::start(&ctx, hang_case, |c| finish(c, SetStats::default()));
     if let Some(case) = ctx.replay_case() {
         let case = case.clone();
         replay(&ctx, &case);
@@ -484,6 +511,7 @@ pub fn run(ctx: Ctx) -> ! {
                 });
             }
         }
+        watch::idle();
         let mut t = totals.lock().unwrap();
         t.histories += st.histories;
         t.inserts += st.inserts;
